@@ -548,6 +548,10 @@ class EventSeries(Cached):
         else:
             e2 = ts2[eventseriesy == 1]
 
+        # Without events in one of the series all rates are undefined (0/0)
+        if len(e1) == 0 or len(e2) == 0:
+            return np.nan, np.nan, np.nan, np.nan
+
         # Count events that cannot be coincided due to lag and delT
         if not (lag == 0 and taumax == 0):
             n11 = len(e1[e1 <= e1[0] + lag + taumax])  # Start of es1
@@ -625,6 +629,10 @@ class EventSeries(Cached):
         # Number of events
         l1 = len(e1)
         l2 = len(e2)
+
+        # Without events in one of the series the rates are undefined (0/0)
+        if l1 == 0 or l2 == 0:
+            return np.nan, np.nan
 
         # Array of all interevent distances
         dst = (np.array([e1] * l2).T - np.array([e2] * l1))
